@@ -1,5 +1,6 @@
 // ---- mod2_mem.rs: trusted stubs for the reduced-ring units (int_modmul, int_moddiv, int_modconv). Word = @W@ -------
-// Needs lib/prelude.rs, lib/div_dword_stubs.rs (FastDivideNormalized2), lib/mod2_ring.rs.  The unit needs
+// Needs lib/prelude.rs, lib/div_dword_stubs.rs (FastDivideNormalized2), lib/div_post_spec.rs (Memory, div_prepared),
+// lib/mod2_ring.rs.  The unit needs
 // `#![feature(allocator_api)]` (the Box specifications below name the allocator parameter).
 //
 // TRUSTED (every item here is an unchecked assumption, listed in the evidence):
@@ -12,8 +13,6 @@
 pub struct Layout { _p: u8 }
 #[verifier::external_body]
 pub struct MemoryAllocation { _p: u8 }
-#[verifier::external_body]
-pub struct Memory<'a> { _p: &'a u8 }
 impl MemoryAllocation {
     #[verifier::external_body]
     pub fn new(layout: Layout) -> (r: MemoryAllocation) { unimplemented!() }
@@ -31,12 +30,6 @@ pub assume_specification<'a, T: ?Sized, A: core::alloc::Allocator> [<Box<T, A> a
     ensures r == &**b;
 pub assume_specification<T: ?Sized + core::cmp::PartialEq, A: core::alloc::Allocator> [<Box<T, A> as core::cmp::PartialEq>::eq] (a: &Box<T, A>, b: &Box<T, A>) -> (r: bool)
     ensures T::obeys_eq_spec() ==> r == (&**a).eq_spec(&**b);
-
-/// "rhs is normalized and fd is the reciprocal of its two top words" (same text as lib/div_ops_stubs.rs): the
-/// precondition shared by the division kernels
-pub open spec fn div_prepared(rhs: Seq<Word>, fd: FastDivideNormalized2) -> bool {
-    rhs.len() >= 2 && fd.wf() && fd.divisor() == rhs[rhs.len() - 2] as int + (rhs[rhs.len() - 1] as int) * B()
-}
 
 /// what ConstLargeDivisor::new (div_const.rs:145, via div::normalize) establishes.  `2 * len <= usize::MAX` is true
 /// of every word slice (a slice occupies at most isize::MAX bytes); Verus does not know it.
